@@ -688,8 +688,14 @@ def check_C18(res, tier, seed):
                     key = 'duplicate-object-instance'
                 elif 'B=0x0:,' in msg or 'B=0x0:?' in msg or 'A=0x0:,' in msg or 'A=0x0:?' in msg:
                     key = 'half-created-visible'
-            elif r['scenario'] == 'logout_getprivate' and 'B=0x5:' in msg:
-                key = 'logout-during-read'
+            elif r['scenario'] in ('create_find', 'createsession_find', 'find_create', 'generate_generate', 'create_create') and 'two different handles' in msg:
+                key = 'duplicate-object-instance'      # the searching thread's instance and the creating thread's instance of the same new object
+            elif r['scenario'] in ('logout_getprivate', 'destroy_getattr', 'getattr_destroy') and 'explained by neither' in msg:
+                # the reading call answered SOME error and no data while the object / the login went away under it
+                import re as _re
+                m_ = _re.search(r'A=(0x[0-9a-f]+):(\S*) B=(0x[0-9a-f]+):(\S*) final=(\S+)\)', msg)
+                if m_ and m_.group(1) == '0x0' and m_.group(3) != '0x0' and m_.group(4) == '.':
+                    key = 'logout-during-read' if r['scenario'] == 'logout_getprivate' else 'destroy-during-read'
             byclass[key or 'unclassified'] = byclass.get(key or 'unclassified', 0) + 1
             if key in known:
                 res.known_finding('key=%s %s' % (key, known[key]['text'][:200]))
@@ -761,11 +767,78 @@ CHECKS = {'C03': check_C03, 'C07': check_C07, 'C05': check_C05, 'C09': check_C09
           'C19': kapi_check('C19', 'find', 'monitor_c19', RULE % 'find')}
 
 
+def replay(pid, path):
+    """re-run what a replay file records on the CURRENT tree and say whether it still fails (exit 1) or not (exit 0)"""
+    import json as _json
+    rec = _json.load(open(path))
+    r = rec.get('replay', {})
+    kind = r.get('kind', '')
+    print('replaying %s (%s): %s' % (path, kind, rec.get('summary', '')[:200]))
+    res = vlib.Result(pid, 'replay', int(r.get('seed', 1) or 1))
+    c = prepare(pid, res)
+    failed = None
+    if kind == 'proof':
+        failed = bool(c.broken)
+        print('proof side now: %s' % ('BROKEN: ' + c.broken[0][:300] if c.broken else 'all obligations of coq/props/Properties_%s.v check' % pid))
+    elif kind in ('store-fail', 'store-kill'):
+        shim = c.harness['fsshim']
+        tpl, blob = kstore.build_template(c.lib, c.harness['p11drv'], shim)
+        try:
+            names = [s['name'] for s in kstore.scenarios(blob)]
+            i = names.index(r['scenario'])
+            f = r.get('fault', {})
+            if kind == 'store-fail':
+                out = kstore.fail_case((c.lib, c.harness['p11drv'], shim, tpl.dir, i, blob, f['func'], int(f['n'])))
+            else:
+                ref = kstore.reference_run(c.lib, c.harness['p11drv'], shim, tpl.dir, kstore.scenarios(blob)[i])
+                out = kstore.kill_case((c.lib, c.harness['p11drv'], shim, tpl.dir, i, blob, int(f['k']), ref, vlib.build_ocaml('codecdrv', 'codec_model', 'codecdrv.ml')))
+            for pr, m in out['findings']:
+                print('  %s: %s' % (pr, m[:300]))
+            failed = any(pr in (pid, 'K-codec') for pr, m in out['findings'])
+        finally:
+            tpl.close()
+    elif kind == 'thread-schedule':
+        s1, s2 = kthread.run(c.harness['thrdrv'], c.lib, r['scenario'], -1), kthread.run(c.harness['thrdrv'], c.lib, r['scenario'], -2)
+        out = kthread.thread_case((c.harness['thrdrv'], c.lib, r['scenario'], int(r['stop_A_before_LockMutex']), [s1, s2]))
+        print('  observed now: %s' % out['raw'])
+        failed = bool(out['findings'])
+    elif r.get('ops'):
+        ops = [o.split(':', 1)[1] if o[:2] in ('A:', 'B:') else o for o in r['ops']]
+        with_model = kind == 'correspondence' and r.get('stream', '').startswith('K-api')
+        trace, dis = replay_sequence(c, ops, True if with_model else None, core_driver() if with_model else None)
+        for (l, rr) in trace[-12:]:
+            print('  %s  =>  %s' % (l[:110], rr.get('line', '').strip()[:160]))
+        if with_model:
+            failed = dis['first'] is not None
+            print('  model vs implementation now: %s' % ('differ at op %d: %s' % dis['first'] if dis['first'] else 'agree on all %d compared calls' % dis['compared']))
+        else:
+            died = any(rr.get('rv') in ('DIED', 'HANG') for _, rr in trace)
+            alarms = []
+            for mn in ('monitor_c01', 'monitor_c03', 'monitor_c11', 'monitor_c19'):
+                try:
+                    alarms += [m for _, m in getattr(monitors, mn)(trace)]
+                except Exception:
+                    pass
+            msg = r.get('message', '')
+            failed = died or (msg in alarms if kind == 'monitor' else None)
+            if failed is None:
+                print('  (the recorded calls were re-run and printed above; this kind of finding is re-judged by running the check itself)')
+    else:
+        print('  nothing executable is recorded for this kind of replay; run the check itself')
+    if failed:
+        print('VIOLATION property=%s replay=%s' % (pid, path))
+        return 1
+    print('replay: %s' % ('not reproduced on the current tree' if failed is False else 'inconclusive'))
+    return 0
+
+
 def main():
     if len(sys.argv) < 2:
         print('usage: check.py <ID> [quick|thorough]')
         return 2
     pid = sys.argv[1]
+    if len(sys.argv) > 3 and sys.argv[2] == '--replay':
+        return replay(pid, sys.argv[3])
     tier = sys.argv[2] if len(sys.argv) > 2 and not sys.argv[2].startswith('--') else os.environ.get('VERIF_TIER', 'quick')
     seed = int(os.environ.get('VERIF_SEED', '1'))
     res = vlib.Result(pid, tier, seed)
